@@ -342,8 +342,13 @@ def run_l2(prop, report, tier, seed, state, tm_traces):
                          "graph_edges_judged": state["graph_cases"], "run_duts": len(duts), "run_cycles_judged": n})
     # (c)
     mcfgs = sl.mmode_configs(tier)
-    res = l2.mmode(sl.LANE.m_module, [{"c": x["c"], "m": x["m"]} for x in mcfgs], invs, props,
-                   timeout=1500 if tier == "quick" else 5400)
+    try:
+        res = l2.mmode(sl.LANE.m_module, [{"c": x["c"], "m": x["m"]} for x in mcfgs], invs, props,
+                       timeout=1500 if tier == "quick" else 2400)
+    except MachineryError as ex:        # the lane never fails a check: TLC killed / timed out on the model
+        report.note("L2 M-mode (stream) could not be evaluated: %s" % str(ex).split("\n")[0][:200])
+        l2.report_drifts(report, sl.LANE, state["drifts"])
+        return
     report.add(states=res.distinct, transitions=res.generated)
     report.cov["l2_model"].update({"mmode_configs": len(mcfgs), "mmode_states": res.distinct, "mmode_wall_s": round(res.wall, 1),
                                    "mmode_largest": "SyncFIFO depth %d, converter ratio %d" % (
